@@ -73,6 +73,62 @@ static void c13_iteration(long i) {
   OP("encode_tag", 1, cbor_encode_tag(vh_rand() >> 40, out, 16));
   OP("encode_string_start", 1, cbor_encode_string_start(vh_randn(70000), out, 16));
   OP("encode_break", 1, cbor_encode_break(out, 16));
+  /* handles attached by the client: ownership of the block passes to the item, which releases it exactly once;
+   * re-attaching the same block (to correct the length) or a block the client moved with the installed realloc is legal */
+  {
+    cbor_item_t *bs = NULL, *ts = NULL;
+    OP("new_definite_strings", 0, (bs = cbor_new_definite_bytestring(), ts = cbor_new_definite_string()));
+    unsigned char *h1 = NULL, *h2 = NULL;
+    OP("client_alloc", 0, (h1 = va_malloc(8), h2 = va_malloc(8)));    /* (logged: the blocks enter the model's live set) */
+    memset(h1, 'x', 8); memset(h2, 'y', 8);
+    OP("bytestring_set_handle", 0, cbor_bytestring_set_handle(bs, h1, 8));
+    OP("bytestring_set_handle", 0, cbor_bytestring_set_handle(bs, h1, 5));       /* same block, corrected length */
+    OP("string_set_handle", 0, cbor_string_set_handle(ts, h2, 8));
+    unsigned char* h3 = NULL;
+    OP("client_realloc", 0, h3 = va_realloc(h2, 32));                            /* the client grows the payload itself ... */
+    memset(h3, 'z', 32);
+    OP("string_set_handle", 0, cbor_string_set_handle(ts, h3, 32));               /* ... and hands the moved block back */
+    OP("decref", 0, cbor_decref(&bs));
+    OP("decref", 0, cbor_decref(&ts));
+  }
+  /* a refused allocation inside an operation: error paths release what they obtained, once */
+  if (i % 2 == 1) {
+    static const unsigned char grow[] = {0xbf, 0x01, 0x02, 0x03, 0x04, 0x05, 0x06, 0x07, 0x08, 0x09, 0x0a, 0xff, 0x9f, 0x01, 0x02, 0x03, 0x04, 0x05, 0xff};
+    for (int which = 0; which < 2; which++) {
+      const unsigned char* in = which ? grow + 12 : grow;
+      size_t inl = which ? 7 : 12;
+      va_fault_mode = VA_ONLY;
+      va_fault_k = va.requests + (long)vh_randn(14);
+      struct cbor_load_result fr;
+      cbor_item_t* fit = NULL;
+      OP("load_with_refusal", 0, fit = cbor_load(in, inl, &fr));
+      va_fault_mode = VA_NONE;
+      if (fit) {
+        va_fault_mode = VA_ONLY;
+        va_fault_k = va.requests + (long)vh_randn(14);
+        cbor_item_t* fcp = NULL;
+        OP("copy_with_refusal", 0, fcp = cbor_copy(fit));
+        va_fault_mode = VA_NONE;
+        if (fcp) OP("decref", 0, cbor_decref(&fcp));
+        OP("decref", 0, cbor_decref(&fit));
+      }
+    }
+    /* a map / array / chunked string grown through the API with one growth step refused */
+    cbor_item_t *gm = NULL, *ga = NULL, *gk = NULL;
+    OP("new_containers", 0, (gm = cbor_new_indefinite_map(), ga = cbor_new_indefinite_array(), gk = cbor_build_uint8(1)));
+    long failat = (long)vh_randn(9);
+    for (long j = 0; j < 9; j++) {
+      if (j == failat) { va_fault_mode = VA_ONLY; va_fault_k = va.requests; }
+      OP("map_add", 0, (void)cbor_map_add(gm, (struct cbor_pair){.key = gk, .value = gk}));
+      va_fault_mode = VA_NONE;
+      if (j == failat) { va_fault_mode = VA_ONLY; va_fault_k = va.requests; }
+      OP("array_push", 0, (void)cbor_array_push(ga, gk));
+      va_fault_mode = VA_NONE;
+    }
+    OP("decref", 0, cbor_decref(&gm));
+    OP("decref", 0, cbor_decref(&ga));
+    OP("decref", 0, cbor_decref(&gk));
+  }
   /* construction API */
   cbor_item_t* t = NULL;
   OP("build", 0, t = vg_build((int)vh_randn(4)));
